@@ -40,7 +40,7 @@ var c10Hostile = []string{
 type c10Plan struct{ nCorpus, nHostile, nNest, nLong, nRand, nProbe int }
 
 func c10PlanFor(tier string) c10Plan {
-	return c10Plan{nCorpus: len(c10Corpus), nHostile: len(c10Hostile), nNest: 60, nLong: 8, nRand: tierN(tier, 40000, 1000000), nProbe: 4}
+	return c10Plan{nCorpus: len(c10Corpus), nHostile: len(c10Hostile), nNest: 60, nLong: 14, nRand: tierN(tier, 40000, 1000000), nProbe: 4}
 }
 
 // c10Reachable: data in which every identifier the generators use resolves,
@@ -277,6 +277,24 @@ func c10Run(c *mon.Ctx, idx int) {
 			s = strings.Repeat(" ", n) + "a == 1" + strings.Repeat("\n", n)
 		case 7:
 			s = "a == \"" + strings.Repeat("x", n) // unterminated
+		// valid but EXPENSIVE inputs, parsed with no budget given by the caller:
+		// whatever default applies must be the same for every entry point
+		case 8:
+			s = "a == \"" + strings.Repeat("x", 700000) + "\""
+		case 9:
+			s = strings.Repeat("(", 9) + "a == 1" + strings.Repeat(")", 9)
+		case 10:
+			s = strings.Repeat("( ", 8) + "a == 1 and b != 2" + strings.Repeat(" )", 8) + " or " + strings.Repeat("(", 8) + "c == 3" + strings.Repeat(")", 8)
+		case 11:
+			s = "a == 1" + strings.Repeat(" and a == 1", 20000)
+		case 12:
+			s = "a == 1" + strings.Repeat(" or not b == 2", 10000)
+		case 13:
+			s = "any a as x { " + strings.Repeat("not (", 7) + "x == 1" + strings.Repeat(")", 7) + " } or a is empty"
+		}
+		if k >= 8 {
+			c.Risk(fmt.Sprintf("unlimited-parse expensive-valid-%d (must survive)", k))
+			c.Count("expensive_valid_inputs")
 		}
 		c10Check(c, s, "long-token", 0)
 		c.Count("long_inputs")
@@ -375,7 +393,7 @@ func init() {
 			// tree under test and are reported, not required: rewording an
 			// error must not make the check inconclusive)
 			return []string{"class:accepted", "rejected", "class:budget-exhausted", "filter_empty_string", "evaluators_exercised", "trees_dumped",
-				"probe:chain-2000-survived", "probe:not-chain-survived", "probe:after-chain"}
+				"probe:chain-2000-survived", "probe:not-chain-survived", "probe:after-chain", "expensive_valid_inputs"}
 		},
 		ChunkTimeout: 0,
 		Post: func(a *mon.Agg) {
